@@ -39,7 +39,8 @@ type c17Sc struct {
 	Pool    int      `json:"pool"`
 	Unknown []string `json:"unknown_variants"` // main-template sources with one name replaced by an unknown one
 	Debug   bool     `json:"debug"`
-	Via     string   `json:"via,omitempty"` // "" = Engine.Render, "renderto" = Engine.RenderTo, "load" = Load + Template.Render
+	MaxK    int      `json:"max_k,omitempty"` // cap on enumerated fault positions (default 64)
+	Via     string   `json:"via,omitempty"`   // "" = Engine.Render, "renderto" = Engine.RenderTo, "load" = Load + Template.Render
 }
 
 type propC17 struct{}
@@ -81,6 +82,9 @@ func (propC17) Gen(seed uint64, ex map[string]bool) interface{} {
 		f.Macros = false
 	}
 	sc := &c17Sc{Prog: genProgram(r, f), Pool: pick(r, []int{simrt.PoolLIFO, simrt.PoolFresh, simrt.PoolRandom}), Debug: r.P(15), Via: pick(r, []string{"", "", "", "renderto", "load"})}
+	if ex["tier:thorough"] {
+		sc.MaxK = 256
+	}
 	if ex["spaceless-tag"] {
 		for ti := range sc.Prog.Templates {
 			for si, s := range sc.Prog.Templates[ti].Segs {
@@ -210,8 +214,12 @@ func (propC17) Run(scI interface{}) *Outcome {
 	}
 	kinds := append([]string(nil), sp0.Kinds...)
 	n := len(kinds)
-	if n > 64 {
-		n = 64
+	capK := 64
+	if sc.MaxK > 0 {
+		capK = sc.MaxK
+	}
+	if n > capK {
+		n = capK
 	}
 	o.Probes["fallible_invocations"] += int64(len(kinds))
 	var sample []string
